@@ -116,7 +116,7 @@ theorem wp_dcReceive {A} {sid ppid : Nat} {data : Bytes} {Q : Unit → St → Pr
           refine wp_flush ⟨h.net, h.ch.open hnone' hs rfl _, h.tx, h.rx, h.rcReq, h.rcResp, h.sack,
             h.room.open hlen hrw rfl _, h.ids, h.cap, h.tm1, h.tm2, h.tasks, h.rcr⟩ ?_
           intro e1 l1 hw1 hf1
-          obtain ⟨cs, dcs, q, tx, rfl, hlen⟩ := hf1
+          obtain ⟨cs, dcs, q, tx, _, _, _, _, rfl, hlen⟩ := hf1
           simp only [wp_getE]
           split
           · simp only [wp_bind, wp_emit]
@@ -125,9 +125,9 @@ theorem wp_dcReceive {A} {sid ppid : Nat} {data : Bytes} {Q : Unit → St → Pr
             rw [wp_chanGet (c := c) (by simpa using hc)]
             simp only [wp_chanSet]
             refine hq _ _ (hw1.setChan (c := c) (by simpa using hc) ⟨rfl, rfl, rfl⟩) ?_
-            exact ⟨_, dcs, q, tx, rfl, by simp; omega⟩
+            exact ⟨_, dcs, q, tx, _, _, _, _, rfl, by simp; omega⟩
           · simp only [wp_pure]
-            exact hq _ _ hw1 ⟨cs, dcs, q, tx, rfl, by simp at hlen; omega⟩
+            exact hq _ _ hw1 ⟨cs, dcs, q, tx, _, _, _, _, rfl, by simp at hlen; omega⟩
     · split
       · split
         · simpa using hdone l
@@ -138,7 +138,7 @@ theorem wp_dcReceive {A} {sid ppid : Nat} {data : Bytes} {Q : Unit → St → Pr
           split
           · refine wp_setReady h0 hi ?_
             intro cs l' hw hlen
-            exact hq _ _ hw ⟨cs, _, _, _, rfl, by omega⟩
+            exact hq _ _ hw ⟨cs, _, _, _, _, _, _, _, rfl, by omega⟩
           · simpa using hdone l
       · simpa using hdone l
   · split
@@ -196,7 +196,7 @@ theorem wp_deliver {A} {msgs : List Msg} {Q : Unit → St → Prop} {e : Ep} {l 
     refine wp_dcReceive hw' hrw (hsid m (by simp)) ?_
     intro e2 l2 hw2 hf2
     simp only [wp_pure, true_and]
-    obtain ⟨cs, dcs, q, tx, rfl, hlen⟩ := hf2
+    obtain ⟨cs, dcs, q, tx, _, _, _, _, rfl, hlen⟩ := hf2
     refine ⟨hw2, ?_, fun x hx => hsid x (by simp [hx]), hins⟩
     refine ⟨?_, h2⟩
     simp only [msgsBytes, List.map_cons, List.sum_cons] at h1 ⊢
@@ -362,8 +362,8 @@ theorem wp_receiveSack {A} {cum : Nat} {gaps : List (Nat × Nat)} {Q : Unit → 
       refine wp_transmit hw2 ?_
       intro tx3 l3 hw3
       refine hq _ _ hw3 ?_
-      obtain ⟨cs, dcs, q, tx2, rfl, hlen⟩ := hf2
-      exact ⟨cs, dcs, q, tx3, rfl, hlen⟩
+      obtain ⟨cs, dcs, q, tx2, _, _, _, _, rfl, hlen⟩ := hf2
+      exact ⟨cs, dcs, q, tx3, _, _, _, _, rfl, hlen⟩
 
 /-- `_send_sack()`. -/
 theorem wp_sendSack {A} {Q : Unit → St → Prop} {e : Ep} {l : List Out} (h : WF U n e) (hrx : e.rx.isSome = true)
